@@ -255,9 +255,54 @@ def _pg_ldap_worker(_):
     return acc.result()
 
 
+def _defaults_worker(i):
+    """A message built with default arguments is composed exactly as its specification lays out *those* values, also
+    after another instance of its class was built and edited in place (fresh process per class): construct, note
+    the composed bytes; construct a second instance, edit every mutable part of it in place; construct a third -
+    its bytes must be the first one's."""
+    import copy
+    from mc.props import c13
+    acc = core.Acc()
+    cands = [t for t in c13.constructible_with_defaults()
+             if t[0].__module__ in ('cryptoparser.tls.mysql', 'cryptoparser.tls.rdp', 'cryptoparser.tls.openvpn',
+                                    'cryptoparser.tls.postgresql', 'cryptoparser.tls.ldap')]
+    if i >= len(cands):
+        return acc.result()
+    cls, kwargs, defaulted = cands[i]
+
+    def build():
+        return cls(**copy.deepcopy(kwargs))
+    try:
+        b0, b1 = bytes(build().compose()), bytes(build().compose())
+        events = c13.mutable_paths_events(build())
+    except Exception:  # noqa
+        return acc.result()
+    if b0 != b1:
+        return acc.result()     # non-deterministic defaults: not comparable this way
+    for path, mutate in events:
+        try:
+            a = build()
+            mutate(a)
+            c = build()
+            bc = bytes(c.compose())
+        except Exception:  # noqa
+            continue
+        acc.counters['transitions'] = acc.counters.get('transitions', 0) + 1
+        acc.state(core.h64('defaults', cls.__name__, path))
+        if bc != b0:
+            acc.violation('defaults:%s:layout_after_history' % cls.__name__,
+                          'a %s built with the same arguments composes differently after %s of an earlier instance '
+                          'was edited in place' % (cls.__name__, path),
+                          {'kind': 'defaults', 'index': i, 'cls': cls.__name__, 'path': path,
+                           'first': b0[:120], 'later': bc[:120]})
+            break
+    return acc.result()
+
+
 def run(ctx):
     ctx.pmap(_mysql_worker, [(p, 16, True) for p in range(16)])
     ctx.pmap(_rdp_worker, [0], nproc=1)
+    ctx.pmap(_defaults_worker, list(range(24)), fresh=True)
     ctx.pmap(_openvpn_worker, [(p, 16) for p in range(16)])
     ctx.pmap(_pg_ldap_worker, [0], nproc=1)
     ctx.assumptions += ['reference encoders written from the MySQL protocol documentation, RFC 1006, X.224 s13.3/13.4, '
@@ -276,6 +321,8 @@ def replay(ctx, w):
         res = _mysql_worker((0, 1, False))
     elif k in ('tpkt', 'rdp_negotiation') or k.startswith('x224'):
         res = _rdp_worker(0)
+    elif k == 'defaults':
+        res = _defaults_worker(w['index'])
     elif k.startswith('openvpn'):
         res = _openvpn_worker((0, 1))
     else:
